@@ -1,12 +1,9 @@
 import Mathlib.Data.Finset.Card
 import Cdecao.Model.Node
+import Cdecao.Spec.Hard
 /-! Spike: the C01 gate theorem (`Gate.lean`) re-based on the types of the final-style node model. -/
 namespace N2.G
 open H2
-
-def _root_.N2.Inst.instructs (I : Inst) (p c : Nat) : Bool := (I.course c).instructors.contains p
-def _root_.N2.Inst.hasChoices (I : Inst) (p : Nat) : Bool := !(I.part p).choices.isEmpty
-def _root_.N2.Inst.chose (I : Inst) (p c : Nat) : Bool := (I.part p).choices.any (fun ch => ch.course == c)
 
 /-- what the node hands to the assignment construction -/
 structure Ctx where
@@ -37,31 +34,10 @@ def isInstr (I : Inst) (X : Ctx) (p : Nat) : Bool :=
 def size (I : Inst) (X : Ctx) (c : Nat) : Nat :=
   (List.range I.P).countP (fun p => !isInstr I X p && assign I X p == some c)
 
-def _root_.N2.Inst.choseOpt (I : Inst) (p : Nat) (a : Option Nat) : Bool :=
-  (I.part p).choices.any (fun ch => some ch.course == a)
-
 /-- check_feasibility says "feasible" -/
 def gateOk (I : Inst) (X : Ctx) : Bool :=
   (List.range I.P).all (fun p => isInstr I X p || I.choseOpt p (assign I X p)) &&
   (List.range I.C).all (fun c => X.cancelled.contains c || decide ((I.course c).numMin ≤ size I X c))
-
-/-! ### specification (C01) -/
-
-def takesPlace (I : Inst) (a : Nat → Option Nat) (c : Nat) : Prop :=
-  (I.course c).fixed = true ∨ ∃ p, p < I.P ∧ a p = some c
-
-def attendees (I : Inst) (a : Nat → Option Nat) (c : Nat) : Nat :=
-  (List.range I.P).countP (fun p => a p == some c && !I.instructs p c)
-
-structure HardOK (I : Inst) (a : Nat → Option Nat) : Prop where
-  range : ∀ p, p < I.P → ∀ c, a p = some c → c < I.C
-  instr : ∀ c, c < I.C → takesPlace I a c → ∀ i, i < I.P → I.instructs i c = true → a i = some c
-  min : ∀ c, c < I.C → takesPlace I a c → (I.course c).numMin ≤ attendees I a c
-  max : ∀ c, c < I.C → takesPlace I a c → attendees I a c ≤ (I.course c).numMax
-  chosen : ∀ p, p < I.P → I.hasChoices p = true →
-      (¬ ∃ c, c < I.C ∧ I.instructs p c = true ∧ takesPlace I a c) →
-      ∃ ch ∈ (I.part p).choices, a p = some ch.course
-  only : ∀ p, p < I.P → I.hasChoices p = false → ∀ c, a p = some c → I.instructs p c = true
 
 /-- what the rest of the node guarantees (NodeOK, mask construction, HSpec1) -/
 structure CtxOK (I : Inst) (X : Ctx) : Prop where
